@@ -39,20 +39,20 @@ Theorem C09_tools_tth_eq_tth2 : forall U c h wl, is_rot U -> valid_cell c ->
 Proof. exact tools_tth_eq_tth2. Qed.
 Print Assumptions C09_tools_tth_eq_tth2.
 
-(* find_omega_wedge: wedge_mat wedge w = Ry(-wedge).Rz(w); wedge_coseta / wedge_a are the code's own coseta and a (a = 0 makes the code divide by zero) *)
+(* find_omega_wedge: wedge_mat wedge w = Ry(-wedge).Rz(w); wedge_coseta is the code's own coseta.  No hypothesis on the code's quantity a: since the repair of F11 (division by a replaced by the equivalent division by a^2 + b^2) the solution is exact also where a = 0, i.e. tan(theta) = tan(wedge) cos(eta) *)
 Theorem C09_tools_wedge : forall g tth wedge oms etas,
   0 < tth < PI -> vx g * vx g + vy g * vy g <> 0 -> cos wedge <> 0 ->
   tools_find_omega_wedge g tth wedge = (oms, etas) ->
   let gn := normalise_to tth g in let ce := wedge_coseta g tth wedge in
   (1 < Rabs ce -> oms = [] /\ etas = []) /\
-  (Rabs ce <= 1 -> wedge_a g tth wedge <> 0 ->
+  (Rabs ce <= 1 ->
      exists w1 w2, oms = [w1; w2] /\ etas = [acos ce; - acos ce] /\
        diffracts (wedge_mat wedge w1) gn tth (acos ce) /\ diffracts (wedge_mat wedge w2) gn tth (- acos ce) /\
        - PI < w1 <= PI /\ - PI < w2 <= PI).
 Proof. exact tools_find_omega_wedge_sound. Qed.
 Print Assumptions C09_tools_wedge.
 Theorem C09_tools_wedge_complete : forall g tth wedge w,
-  0 < tth < PI -> vx g * vx g + vy g * vy g <> 0 -> cos wedge <> 0 -> wedge_a g tth wedge <> 0 ->
+  0 < tth < PI -> vx g * vx g + vy g * vy g <> 0 -> cos wedge <> 0 ->
   let gn := normalise_to tth g in
   - PI < w <= PI -> vx (mvmul (wedge_mat wedge w) gn) = - (sin (tth / 2) * sin (tth / 2)) ->
   Rabs (wedge_coseta g tth wedge) <= 1 /\ In w (fst (tools_find_omega_wedge g tth wedge)).
